@@ -6,6 +6,7 @@ TITLES = {}
 for l in open(os.path.join(V, "properties.jsonl")):
     p = json.loads(l); TITLES[p["id"]] = p["title"]
 
+SPEC_NOTE = 'Lean kernel; `Spec` (reference semantics) is hand-written: its agreement with the Rust evaluator is established only by the differential stream, whose generators bound what is seen; theorems are about Spec, not directly about the Rust code.'
 CLAIMED = {
  "C08": dict(
   text="Lean 4 theorems over all BitVec-64 operand pairs (wrap of + - * neg, truncating / and %, MIN/-1, exponentiation by "
@@ -62,6 +63,41 @@ CLAIMED = {
   note="Lean kernel; Spec is hand-written: its agreement with the Rust evaluator (two environments, capture by substitution) is "
        "established only by the differential stream, whose generator bounds what is seen; imports are not modelled.",
   technique="Lean 4 proof over a reference semantics + differential program correspondence", ref="DESIGN.md §6 C06"),
+ "C07": dict(
+  text="Lean 4 theorems about the reference semantics Spec, in which every effect is a transformation of the store threaded through "
+       "a state monad: for binary operators (explicit stores: left operand, then right, each once; a failing left operand leaves "
+       "the right one unevaluated), && / || short-circuit in both directions, expression lists, struct fields, calls (function, "
+       "then arguments), array / tuple / repeat, index, slice (operand then start, stop, step), assignment (target, value, "
+       "read-compute-write), reduce, if (only the chosen branch), match (scrutinee once; value candidates left to right until "
+       "the first hit; unselected arms not evaluated). Tied to the implementation by 152 marker-log templates (every operator "
+       "and position, foldable and hidden operands) and marker-dense generated programs compared log-for-log.",
+  note=SPEC_NOTE, technique="Lean 4 proof over a reference semantics + differential marker-log correspondence", ref="DESIGN.md §6 C07"),
+ "C11": dict(
+  text="Lean 4 theorems about Spec for ANY iterator value, described only by the results of its successive pulls (inductive "
+       "relation Pulls, store-changing pulls allowed): `$]` returns exactly the pulled elements in order; `$+ $* $& $|` are "
+       "left folds from 0 / 1 / all-ones / 0 (units for the empty sequence); `$&&` / `$||` stop at the first deciding element "
+       "(PullsUntil); per-element step equations of `$ init f`, `\\`, `for`; creating `@`, `?`, `? T` pulls and calls nothing. "
+       "Tied to the implementation by operator pipelines over array-derived and user-written sources with logging callbacks, "
+       "compared three ways: implementation, Spec, and an independent Python simulation of list semantics (value and log).",
+  note=SPEC_NOTE + " `Yields (a~) a` for the array iterator is exercised by the stream, not yet proved.",
+  technique="Lean 4 proof over a reference semantics + differential pipelines + list-semantics oracle", ref="DESIGN.md §6 C11"),
+ "C12": dict(
+  text="Lean 4 theorems about Spec: a function call never lets break / continue / return escape (all other signals pass), turns "
+       "`return v` of its body into its value and falling off the end into (); loop bodies catch break / continue and propagate "
+       "return; a loop never lets break / continue out and evaluates to () (induction on fuel); if / if-set / while-set select by "
+       "the condition / the run-time type; match arms are tried top to bottom (type arm by run-time tag, value arm by equality, "
+       "other arm), an uncovered match is `wrong`; blocks evaluate to their last statement. Tied to the implementation by 248 "
+       "systematic templates (4 loops x 7 enclosing constructs x 3 signals, nested loops, all arm orders, 13 array-tag provenances).",
+  note=SPEC_NOTE, technique="Lean 4 proof over a reference semantics + differential control-flow templates", ref="DESIGN.md §6 C12"),
+ "C13": dict(
+  text="Lean 4 theorems about the store of Spec: `mut` allocates a location different from all existing ones holding the initial "
+       "value and changes no other cell; read-after-write, writes leave other locations unchanged; `*` reads the location whatever "
+       "copy of the cell value is used; `c = v` stores and yields v; `c op= v` reads the content after v was evaluated, stores and "
+       "yields the result, and leaves the cell unchanged when op fails; the 11 compound operators are their base operators. Tied to "
+       "the implementation by random assignment/read histories over aliasing graphs (arrays, structs, tuples, closures, cells of "
+       "cells, parameters; unions and any) compared with Spec, plus a recursive content-in-declared-type walk over the result.",
+  note=SPEC_NOTE + " The typed-content invariant for all checker-admitted assignments is checked by the harness walk and the monitor, not yet proved.",
+  technique="Lean 4 proof over a reference semantics + differential assignment histories", ref="DESIGN.md §6 C13"),
 }
 NOT_YET = "machinery for this property is not built yet in this round (planned, see DESIGN.md §6)"
 
